@@ -27,6 +27,9 @@ CHECKS = {
  "C14": ("property-based testing (rapid) against an independent reference path-set semantics + metamorphic permutation/regrouping + JSON round trip; native fuzzing of path strings and JSON in thorough",
          "Generated descriptors, path lists (valid / conflicting / invalid by construction / byte soup), query sequences and JSON documents; oracles: no panic on any input, exact query answers on conflict-free sets from a reference trie, invariance under order and grouping, error on the invalid classes, JSON round trip answering identically, stable JSON text.",
          "Trusted: the reference semantics (validated against the repository's own test vectors without calling the library)."),
+ "C02": ("property-based testing (rapid): generated programs compiled into a reflective driver; differential against an independent schema-driven binary-protocol codec in both directions, plus structurally valid wire perturbations",
+         "Generated programs are compiled by the thriftgo under test, linked with a generic reflective driver and exercised with generated values: bytes of generated Write must decode under the strict reference decoder to the value; reference encodings must Read back to the value (reflection dump by thrift tags); unknown fields, retagged fields, missing required fields and ill-formed unions must behave as the property states.",
+         "Trusted: the reference codec (written from the Thrift binary protocol specification, shares no code with thriftgo/apache/gopkg), apache thrift v0.13.0's TBinaryProtocol/TMemoryBuffer as the transport under the generated code."),
 }
 NOT_YET = "check not built yet (work in progress; the technique applies, see DESIGN.md)"
 
